@@ -7,9 +7,9 @@ package simsync
 
 import (
 	"runtime/debug"
-	"time"
 	"sort"
 	"sync"
+	"time"
 	"unsafe"
 
 	"verif/simrt"
